@@ -3,6 +3,7 @@
 package server
 
 import (
+	"strings"
 	"fmt"
 	"net/netip"
 	"testing"
@@ -19,9 +20,12 @@ func vkC06Judge(w *vkSrvWorld, cs vkSrvCase) (string, string) {
 	raw := cs.Pkt.build()
 	client := netip.MustParseAddrPort(cs.Client)
 	paths := []vkPath{vkPathDecoded, vkPathStrict, vkPathServeMsg}
+	if w.primer != nil {
+		paths = []vkPath{vkPathStrict} // only the slab-owning paths see a primer
+	}
 	if cs.Proto == "udp" {
 		paths = append(paths, vkPathInline)
-	} else {
+	} else if w.primer == nil {
 		// DNS over HTTPS: the real ServeHTTP in front of the same pipeline (a stream transport)
 		paths = append(paths, vkPathDoHPost, vkPathDoHGet)
 	}
@@ -174,6 +178,24 @@ func vkC06Reply(cs vkSrvCase, path vkPath, raw []byte, decodable bool, r vkResul
 				}
 				if ck, ok := o.(*dns.EDNS0_COOKIE); ok && ck.Cookie == "aaaaaaaaaaaaaaaabbbbbbbbbbbbbbbb" {
 					return "the upstream's cookie was relayed to the client: " + m.String(), ""
+				}
+				// the server cookie is returned only AGAINST THE CLIENT COOKIE SENT: its client half is the client's own
+				if ck, ok := o.(*dns.EDNS0_COOKIE); ok {
+					var wants []string
+					if sent["cookie8"] || sent["cookie24"] {
+						wants = append(wants, "0102030405060708")
+					}
+					if sent["cookie8b"] {
+						wants = append(wants, "0909090909090909")
+					}
+					okc := len(wants) == 0
+					for _, wnt := range wants {
+						okc = okc || strings.HasPrefix(ck.Cookie, wnt)
+					}
+					want := strings.Join(wants, " or ")
+					if !okc {
+						return fmt.Sprintf("reply cookie %s does not start with the client cookie sent (%s): another request's cookie", ck.Cookie, want), ""
+					}
 				}
 			case dns.EDNS0NSID:
 				if !sent["nsid"] {
